@@ -11,7 +11,7 @@
       type alone (F27, repaired by ace4a06) are described in comments: the model has no pool, and
       it has one struct type per tag view, so neither is expressible as a switch. *)
 From Coq Require Import List ZArith Bool String Ascii.
-From GZ Require Import C08.Model C08.Spec C08.KModel C08.KSpec.
+From GZ Require Import C08.Model C08.Spec C08.KModel C08.KSpec C08.Rounding.
 Import ListNotations.
 Open Scope Z_scope.
 Open Scope string_scope.
@@ -104,6 +104,54 @@ Example key_table_now :
   [CAccepted [VStruct [VInt 5]]; CRejected false; CAccepted [VStruct [VInt 7]]; CRejected false;
    CAccepted [VStruct [VInt 10]]].
 Proof. vm_compute. reflexivity. Qed.
+
+(* ------------------------------------------------------------------ rounding the two sides differently
+
+   Rounding.v: comparing roundings agrees with comparing the numbers when value and bounds go
+   through the SAME monotone rounding.  Two variants that do not:
+
+   3. Seeded change C08-5: the supplied text is compared at a 64 bit mantissa (exact for short
+      decimals), the bounds stay the float64 roundings of the tag text.
+   4. F32 (unchanged code, repaired): a float32 field read from a string had its value rounded to
+      float32 and widened, the bounds rounded to float64.
+
+   [near_grid k] = to the nearest multiple of 2^-k: float64 around 0.3 is k = 54, around 0.1 is
+   k = 55; float32 around 0.1 is k = 27, around 0.3 is k = 25. *)
+
+Definition d01 : dec := mkDec 1 (-1).
+Definition d03 : dec := mkDec 3 (-1).
+Definition r_03_1 : range := mkRange false (Some d03) (Some (mkDec 1 0)) true.      (* (0.3:1] *)
+Definition r_01_1 : range := mkRange true (Some d01) (Some (mkDec 1 0)) true.       (* [0.1:1] *)
+Definition r_0_01 : range := mkRange true (Some (mkDec 0 0)) (Some d01) true.       (* [0:0.1] *)
+
+(* C08-5: bounds rounded, value as written *)
+Definition bounds_rounded_check (k : Z) (r : range) (d : dec) : bool := in_range (round_range (near_grid k) r) d.
+
+Theorem bounds_rounded_sound_refuted :
+  exists r d, in_range r d = false /\ bounds_rounded_check 54 r d = true.
+Proof. exists r_03_1, d03. vm_compute. split; reflexivity. Qed.
+
+Theorem bounds_rounded_complete_refuted :
+  exists r d, in_range r d = true /\ bounds_rounded_check 55 r d = false.
+Proof. exists r_01_1, d01. vm_compute. split; reflexivity. Qed.
+
+(* F32: value at the float32 grid, bounds at the float64 grid *)
+Definition f32_string_check (kv kb : Z) (r : range) (d : dec) : bool :=
+  in_range (round_range (near_grid kb) r) (near_grid kv d).
+
+Theorem f32_string_complete_refuted :
+  exists r d, in_range r d = true /\ f32_string_check 27 55 r d = false.
+Proof. exists r_0_01, d01. vm_compute. split; reflexivity. Qed.
+
+Theorem f32_string_sound_refuted :
+  exists r d, in_range r d = false /\ f32_string_check 25 54 r d = true.
+Proof. exists r_03_1, d03. vm_compute. split; reflexivity. Qed.
+
+(* the current code: one rounding for both sides *)
+Example one_rounding_now :
+  f32_string_check 54 54 r_03_1 d03 = in_range r_03_1 d03 /\ f32_string_check 55 55 r_01_1 d01 = in_range r_01_1 d01 /\
+  f32_string_check 55 55 r_0_01 d01 = in_range r_0_01 d01.
+Proof. vm_compute. repeat split. Qed.
 
 (* Not switchable:
    - C08-3: rest/httpx.GetFormValues took its map from a sync.Pool and handed it back without
